@@ -120,7 +120,17 @@ func safeErrString(err error) (s string) {
 
 func observe(hist prog.History, e host.Engine, record bool) Trace {
 	rs, lim, gauges, final := splicegen.Run(nil, hist, e, record)
-	tr := Trace{Engine: e.String()}
+	return traceOf(e.String(), rs, lim, gauges, final, record)
+}
+
+// observeValidating runs hist with atree/storage validation on (small computation limit).
+func observeValidating(hist prog.History, e host.Engine) Trace {
+	rs, lim, gauges, final := splicegen.RunValidating(nil, hist, e)
+	return traceOf(e.String()+"+validation", rs, lim, gauges, final, false)
+}
+
+func traceOf(name string, rs []host.Result, lim []bool, gauges []*host.Gauge, final *host.Host, record bool) Trace {
+	tr := Trace{Engine: name}
 	for i, r := range rs {
 		ci := host.Classify(r)
 		o := Obs{Class: ci.Class, Root: ci.Root, Logs: r.Logs, Limited: lim[i]}
